@@ -142,7 +142,10 @@ def msg_from_spec(spec):
     import bitcoin.messages as M
     import bitcoin.net as N
     t, f = spec['type'], spec['f']
-    m = M.messagemap[t.encode()]()
+    cls = M.messagemap[t.encode()]
+    # every message constructor takes the protocol version the peer speaks; for the versions used here (all
+    # above 60000) no message's layout depends on it
+    m = cls(protover=spec['protover']) if spec.get('protover') is not None else cls()
     if t == 'version':
         m.nVersion = f['nVersion']
         m.nServices = f['nServices']
